@@ -95,6 +95,12 @@ package backend
 //@        && called("backend.contains") && !result("backend.contains", 0) \
 //@        && delimiter != "" && strings.HasPrefix(key0, prefix) && strings.Contains(strings.TrimPrefix(key0, prefix), delimiter) && key0 != marker && !(key0 < marker) :: \
 //@        ensures in(cpref, cpmap) || cpref == marker || strings.HasPrefix(marker, cpref)
+// completeness (OPEN FINDING, see known_findings.json): a directory whose key matches prefix, delimiter and marker is
+// left out only after the backend said it is not an object; with a delimiter, a non-empty directory is left out unasked
+//@   at-return {C07} [a-matching-directory-is-left-out-only-if-it-is-not-an-object] when ownDecision && ret0 == nil && in0 != "." && d.IsDir() \
+//@        && called("backend.contains") && !result("backend.contains", 0) && old(pastMarker) && !old(pastMax) \
+//@        && strings.HasPrefix(key0, prefix) && (delimiter == "" || !strings.Contains(strings.TrimPrefix(key0, prefix), delimiter)) :: \
+//@        ensures called("dynamic")
 // completeness: the walk is ended early only by a full page, which is then declared truncated
 //@   ensures {C07} [the-walk-stops-early-only-on-a-full-page] ownDecision && ret0 == fs.SkipAll ==> truncated && old(pastMax)
 //@   ensures {C07} [truncation-is-declared-only-on-a-full-page-and-stops-the-walk] truncated != old(truncated) ==> truncated && old(pastMax) && ret0 == fs.SkipAll
